@@ -473,6 +473,9 @@ func (tic *TermInCommittee) processPreprepare(ppm *interfaces.PreprepareMessage)
 	if err := tic.checkPreparedLocally(header.BlockHeight(), header.View(), header.BlockHash()); err != nil {
 		tic.logger.Debug("checkPreparedLocally: err=%v", err)
 	}
+	// COMMITs of quorum weight for this proposal may have arrived before it (they are stored but cannot be evaluated
+	// without the proposal): evaluate them now, like the PREPAREs above
+	tic.checkCommitted(header.BlockHeight(), header.View(), header.BlockHash())
 }
 
 func (tic *TermInCommittee) HandlePrepare(pm *interfaces.PrepareMessage) {
